@@ -143,9 +143,11 @@ class CoordinateSystem:
             int or array: number(s) of voxels
 
         """
-        # Include all touched voxels; use therefore ceil.
+        # Include all touched voxels; use therefore ceil. Guard against round-off
+        # errors for lengths which are multiples of the voxel size.
         assert axis in self.axes
-        return np.ceil(length / self.voxel_size[axis]).astype(int)
+        ratio = np.asarray(length / self.voxel_size[axis])
+        return np.ceil(ratio - 1e-9 * np.maximum(1.0, np.abs(ratio))).astype(int)
 
     def coordinate(
         self,
